@@ -7,7 +7,7 @@ use serde::{Deserialize, Serialize};
 use serde_json::json;
 use std::time::{Duration, Instant};
 
-pub const RULE: &str = "sessions of 3-40 commands over {isready, ucinewgame, position <generated game>, setoption (Hash 1-4, Move Overhead), go finite (depth 1-5 | movetime 5-60 ms | small clocks), go infinite, stop, quit} against the shipped binary; the driver keeps the session conforming (go/ucinewgame/position/setoption only when no bestmove is outstanding: it waits for the bestmove of a finite go, or sends stop first) and the generator chooses the timing of every command: in the same write as the previous one (stop / isready directly behind go), after 0-30 ms, or immediately after the engine's bestmove; per session a delay vector for the hook-H2 points (before the search thread takes the mutex, after the search, after bestmove is printed, after the latch is set, after ucinewgame resets the latch, before stop waits) of 0 or 15-40 ms each widens the microsecond windows. Model: every isready is answered by readyok within 10 s; every go gets exactly one bestmove (finite: by itself; infinite: after stop), never two; stop and ucinewgame return (the closing isready is answered); after quit the process exits with status 0. A missed deadline is a violation only if the process is blocked (no CPU time over 5 s, all threads sleeping) while an answer is owed. Non-trivial = session with a go and at least one of: stop after the search ended by itself, ucinewgame between a finished search and a stop, stop in the same write as go, a command sent inside a widened H2 window; distinct by (commands, timings, delays).";
+pub const RULE: &str = "sessions of 3-40 commands over {isready, ucinewgame, position <generated game>, setoption (Hash 1-4, Move Overhead), go finite (depth 1-5 | movetime 5-60 ms | small clocks), go infinite, stop, quit} against the shipped binary; the driver keeps the session conforming (go/ucinewgame/position/setoption only when no bestmove is outstanding: it waits for the bestmove of a finite go, or sends stop first) and the generator chooses the timing of every command: in the same write as the previous one (stop / isready directly behind go), after 0-30 ms, or immediately after the engine's bestmove; per session a delay vector for the hook-H2 points (before the search thread takes the mutex, after the search, after bestmove is printed, after the latch is set, after ucinewgame resets the latch, before stop waits) of 0 or 15-40 ms each widens the microsecond windows. Model: every isready is answered by readyok within 10 s; every go gets exactly one bestmove (finite: by itself; infinite: after stop), never two; stop and ucinewgame return (the closing isready is answered); after quit the process exits with status 0. A missing answer is a violation only on evidence from /proc: readyok owed and the input thread asleep without CPU use for 3 s; bestmove owed and all threads asleep for 3 s; or bestmove owed and the engine still computing 30 s after a search limited to < 1 s or told to stop. Anything merely slow is inconclusive. Non-trivial = session with a go and at least one of: stop after the search ended by itself, ucinewgame between a finished search and a stop, stop in the same write as go, a command sent inside a widened H2 window; distinct by (commands, timings, delays).";
 
 #[derive(Serialize, Deserialize, Clone, Debug, PartialEq)]
 pub enum Timing {
@@ -110,19 +110,33 @@ struct Session {
 }
 
 enum Missed {
+    Overdue(String),
     Blocked(String),
     Slow(String),
     Died(String),
 }
 
+#[derive(Clone, Copy, PartialEq)]
+enum Owed {
+    ReadyOk,
+    BestMove,
+}
+
 impl Session {
     /// Wait for a line accepted by `pred`; counts bestmoves on the way. While an answer is owed the
-    /// process is watched through /proc: if for 3 s it uses no CPU time and all its threads sleep, it
-    /// is blocked (a runnable but descheduled process is in state R, so machine load cannot cause
-    /// this). A missed deadline without that evidence is "slow", never a verdict.
+    /// process is watched through /proc (a runnable but descheduled thread is in state R, so machine
+    /// load cannot produce these verdicts):
+    /// * readyok owed: the input thread answers isready by itself; if it sleeps without using CPU for
+    ///   3 s although the command has been written to its pipe, it is blocked on something else;
+    /// * bestmove owed: if all threads sleep without using CPU for 3 s the answer is lost; if the
+    ///   process still computes 30 s after the search should have ended (limits here are <= 0.7 s, a
+    ///   stopped search ends within one 10,000-node poll interval) the stop / limit is being ignored.
+    /// Anything else that merely takes long is "slow", never a verdict.
     fn wait_for(&mut self, what: &str, deadline: Duration, pred: &dyn Fn(&str) -> bool) -> Result<(), Missed> {
+        let owed = if what.contains("readyok") { Owed::ReadyOk } else { Owed::BestMove };
         let t0 = Instant::now();
         let mut idle_since: Option<(Instant, u64)> = None;
+        let pid = self.e.pid();
         loop {
             match self.e.read_line(Duration::from_millis(250)) {
                 Ok(Some(l)) => {
@@ -142,17 +156,31 @@ impl Session {
                 }
                 Ok(None) => return Err(Missed::Died(format!("output ended while waiting for {what}"))),
                 Err(_) => {
-                    match self.e.proc_state() {
-                        Some((ticks, true)) => match idle_since {
+                    let Some(threads) = self.e.proc_threads() else {
+                        return Err(Missed::Died(format!("process gone while waiting for {what}")));
+                    };
+                    let (asleep, ticks) = match owed {
+                        Owed::ReadyOk => {
+                            let main = threads.iter().find(|t| t.0 == pid);
+                            (main.map_or(false, |t| t.1 == 'S' || t.1 == 'D'), main.map_or(0, |t| t.2))
+                        }
+                        Owed::BestMove => (threads.iter().all(|t| t.1 == 'S' || t.1 == 'D'), threads.iter().map(|t| t.2).sum()),
+                    };
+                    if asleep {
+                        match idle_since {
                             Some((since, t)) if t == ticks => {
                                 if since.elapsed() >= Duration::from_secs(3) {
-                                    return Err(Missed::Blocked(format!("{what} not received after {:?}: the process is blocked (no CPU time for 3 s, all threads sleeping) while the answer is owed", t0.elapsed())));
+                                    let who = if owed == Owed::ReadyOk { "the input thread sleeps" } else { "all threads sleep" };
+                                    return Err(Missed::Blocked(format!("{what} not received after {:?}: {who} without using CPU for 3 s while the answer is owed", t0.elapsed())));
                                 }
                             }
                             _ => idle_since = Some((Instant::now(), ticks)),
-                        },
-                        Some((_, false)) => idle_since = None,
-                        None => return Err(Missed::Died(format!("process gone while waiting for {what}"))),
+                        }
+                    } else {
+                        idle_since = None;
+                    }
+                    if owed == Owed::BestMove && t0.elapsed() > Duration::from_secs(30) {
+                        return Err(Missed::Overdue(format!("{what} not received after {:?} although the search was limited to well under a second or told to stop: the engine keeps searching", t0.elapsed())));
                     }
                     if t0.elapsed() > deadline + Duration::from_secs(60) {
                         return Err(Missed::Slow(format!("{what} not received after {:?} although the process is not blocked", t0.elapsed())));
@@ -205,6 +233,7 @@ fn run_session(delays: &str, steps: &[Step], st: &mut Stats) -> Result<(), Fail>
     let to_fail = |s: &Session, m: Missed| -> Fail {
         let tail: Vec<String> = s.e.transcript.iter().rev().take(12).rev().cloned().collect();
         match m {
+            Missed::Overdue(w) => Fail::new("bestmove_overdue:still_searching", format!("{w}; delays [{delays}]; last lines: {tail:?}")).explicit(ex()),
             Missed::Blocked(w) => Fail::new("hang:blocked", format!("{w}; delays [{delays}]; last lines: {tail:?}")).explicit(ex()),
             Missed::Died(w) => Fail::new("engine_died", format!("{w}; delays [{delays}]; last lines: {tail:?}")).explicit(ex()),
             Missed::Slow(w) => Fail::new("inconclusive:slow", format!("{w}; last lines: {tail:?}")).explicit(ex()),
